@@ -38,6 +38,13 @@ pub struct Wal {
 
 	/// A flag indicating whether the WAL instance is closed or not.
 	closed: bool,
+
+	/// Set when an append, flush or sync of the active segment has failed. The
+	/// segment may then end in a partly written record, and anything appended
+	/// behind it would be cut off together with it by the next recovery: the
+	/// log refuses further writes until the store is reopened (recovery repairs
+	/// the tail).
+	failed: bool,
 }
 
 impl Wal {
@@ -65,6 +72,7 @@ impl Wal {
 			dir: dir.to_path_buf(),
 			opts,
 			closed: false,
+			failed: false,
 		})
 	}
 
@@ -128,6 +136,7 @@ impl Wal {
 			dir: dir.to_path_buf(),
 			opts,
 			closed: false,
+			failed: false,
 		})
 	}
 
@@ -338,9 +347,14 @@ impl Wal {
 			return Err(Error::IO(IOError::new(io::ErrorKind::Other, "buf is empty")));
 		}
 
+		self.check_not_failed()?;
+
 		log::trace!("WAL append: log_number={}, bytes={}", self.active_log_number, rec.len());
 
-		self.active_writer.add_record(rec)?;
+		if let Err(e) = self.active_writer.add_record(rec) {
+			self.failed = true;
+			return Err(e);
+		}
 
 		// Return 0 for now (offset tracking can be added if needed)
 		Ok(0)
@@ -350,7 +364,22 @@ impl Wal {
 		if self.closed {
 			return Ok(());
 		}
-		self.active_writer.sync()
+		self.check_not_failed()?;
+		let r = self.active_writer.sync();
+		if r.is_err() {
+			self.failed = true;
+		}
+		r
+	}
+
+	fn check_not_failed(&self) -> Result<()> {
+		if self.failed {
+			return Err(Error::IO(IOError::new(
+				io::ErrorKind::Other,
+				"an earlier WAL write failed; reopen the store to recover the log",
+			)));
+		}
+		Ok(())
 	}
 
 	/// Flushes buffered WAL data to OS cache (not to disk).
@@ -359,7 +388,12 @@ impl Wal {
 		if self.closed {
 			return Ok(());
 		}
-		self.active_writer.write_buffer()
+		self.check_not_failed()?;
+		let r = self.active_writer.write_buffer();
+		if r.is_err() {
+			self.failed = true;
+		}
+		r
 	}
 
 	/// Returns a clone of the sync file descriptor Arc.
